@@ -244,6 +244,7 @@ BROKER_ASSUMPTIONS = [
     "outbound ack queues (Pub1ack/Pub2out) have no observable effect in the broker role and are not modelled",
     "packets are compared decoded (field level) with the harness's own reference codec; byte-level codec properties are C03/C04",
     "fan-out order is a Go map order: runs of consecutive PUBLISH packets are compared as multisets; the identifier an in-process callback sees is not compared",
+    "the identifier generated for a client that connects without one (auto- + 96 random bits from crypto/rand) never coincides with a client-supplied identifier or with another generated one: the model represents it by a byte string outside the set of acceptable supplied identifiers",
 ]
 
 
@@ -255,13 +256,13 @@ def mk(pid, module, runs, classes=None):
                       "regenerated facts: topics.MaxQosAllowed, message.SupportedVersions, Ackqueue tables"]))
 
 
-mk('C01', 'Mqtt.Properties.C01', [Run('broker', quick=12000, thorough=80000, seeds_thorough=8)])
-mk('C02', 'Mqtt.Properties.C02', [Run('broker-qos', quick=12000, thorough=80000, seeds_thorough=8)])
-mk('C07', 'Mqtt.Properties.C07', [Run('broker-sub', quick=12000, thorough=80000, seeds_thorough=8)])
-mk('C08', 'Mqtt.Properties.C08', [Run('broker-ret', quick=12000, thorough=80000, seeds_thorough=8)])
-mk('C09', 'Mqtt.Properties.C09', [Run('broker-will', quick=12000, thorough=80000, seeds_thorough=8)])
-mk('C10', 'Mqtt.Properties.C10', [Run('broker-sess', quick=12000, thorough=80000, seeds_thorough=8)])
-mk('C11', 'Mqtt.Properties.C11', [Run('broker-first', quick=12000, thorough=80000, seeds_thorough=8)])
+mk('C01', 'Mqtt.Properties.C01', [Run('broker', quick=30000, thorough=120000, seeds_thorough=8)])
+mk('C02', 'Mqtt.Properties.C02', [Run('broker-qos', quick=30000, thorough=120000, seeds_thorough=8)])
+mk('C07', 'Mqtt.Properties.C07', [Run('broker-sub', quick=30000, thorough=120000, seeds_thorough=8)])
+mk('C08', 'Mqtt.Properties.C08', [Run('broker-ret', quick=30000, thorough=120000, seeds_thorough=8)])
+mk('C09', 'Mqtt.Properties.C09', [Run('broker-will', quick=30000, thorough=120000, seeds_thorough=8)])
+mk('C10', 'Mqtt.Properties.C10', [Run('broker-sess', quick=30000, thorough=120000, seeds_thorough=8)])
+mk('C11', 'Mqtt.Properties.C11', [Run('broker-first', quick=30000, thorough=120000, seeds_thorough=8)])
 
 
 # C05: the same broker oracle on byte-level events (`rawfirst`, `raw`).  The bytes are framed and
@@ -274,7 +275,7 @@ C05_ASSUMPTIONS = BROKER_ASSUMPTIONS + [
     "the implementation runs with GOMEMLIMIT and an address-space limit (lib/vcheck/corr.py): an input that makes the broker allocate gigabytes kills the process and is reported as a crash",
 ]
 register(Prop('C05', 'Mqtt.Properties.C05', ['broker'],
-              runs=[Run('broker-iso', quick=9000, thorough=60000, seeds_thorough=8),
+              runs=[Run('broker-iso', quick=20000, thorough=100000, seeds_thorough=8),
                     Run('broker-iso-sweep', quick=2500, thorough=30000, seeds_thorough=2)],
               oracle=broker_oracle, nontrivial=broker_nontrivial, spec_total=False,
               unspecified=overlap_episode,
